@@ -454,6 +454,23 @@ static void cmd_params(int sid, uint32_t k, uint32_t r, uint32_t len, uint32_t m
 		s->configured = 1;
 		/* parity-check rows of this very session */
 		if (s->codec == 3 && g_hook_have) { s->H = g_hookH; s->Hn = g_hookHn; s->nH = g_hooknH; g_hookH = NULL; g_hookHn = NULL; g_hooknH = 0; g_hook_have = 0; }
+		else if (s->codec == 3) {
+			/* no pchk_done event (hook removed by a refactoring): fall back to the control block of an encoder
+			 * session, whose matrix is never consumed (a decoder deletes entries of its own matrix) */
+			if (s->role == 1) capture_H(((of_ldpc_staircase_cb_t *)s->ses)->pchk_matrix, k, r, &s->H, &s->Hn, &s->nH);
+			else {
+				of_session_t *e = NULL;
+				LIB_ENTER(sid + 100);
+				of_status_t st2 = of_create_codec_instance(&e, OF_CODEC_LDPC_STAIRCASE_STABLE, OF_ENCODER, 0);
+				LIB_LEAVE();
+				if (st2 == OF_STATUS_OK && e) {
+					dses_t tmp = *s; tmp.ses = e;
+					if (set_params_raw(&tmp, sid + 100, k, r, len, m, N1, seed) == OF_STATUS_OK)
+						capture_H(((of_ldpc_staircase_cb_t *)e)->pchk_matrix, k, r, &s->H, &s->Hn, &s->nH);
+					LIB_ENTER(sid + 100); of_release_codec_instance(e); LIB_LEAVE();
+				}
+			}
+		}
 		else if (s->codec == 5) capture_H(((of_2d_parity_cb_t *)s->ses)->pchk_matrix, k, r, &s->H, &s->Hn, &s->nH);
 		/* application buffers */
 		s->raw = calloc(s->n, sizeof(void *)); s->cw = calloc(s->n, sizeof(void *)); s->orig = calloc(s->n, sizeof(void *)); s->have = calloc(s->n, sizeof(int));
